@@ -187,3 +187,37 @@ func VerifH20l() {
 	}
 	sym.Reached("C20/long/end")
 }
+
+var verifIndepRealQueries = []string{`sum(foo)`, `avg(foo)`, `stddev(foo)`, `sum by (b) (foo)`}
+
+// VerifH11r: float aggregations over three members do not depend (up to rounding: exact
+// reals) on shard count or on the order in which the storage returns the series.
+func VerifH11r() {
+	qs := verifIndepRealQueries[sym.Choice("query", len(verifIndepRealQueries))]
+	start := sym.Int64("start", 0, verifR)
+	data := []*stub.Series{
+		stub.NewSeries(stub.Labels("__name__", "foo", "a", "x", "b", "1"), []stub.Sample{{T: start, V: sym.Float64("v0")}}),
+		stub.NewSeries(stub.Labels("__name__", "foo", "a", "y", "b", "1"), []stub.Sample{{T: start, V: sym.Float64("v1")}}),
+		stub.NewSeries(stub.Labels("__name__", "foo", "a", "z", "b", "1"), []stub.Sample{{T: start, V: sym.Float64("v2")}}),
+	}
+	e := verifEngine(logicalplan.DefaultOptimizers, 300000)
+	sym.SetGOMAXPROCS(2)
+	base := verifExecInstant(e, &stub.Queryable{Ser: data}, qs, start)
+	var other *promql.Result
+	if sym.Choice("variant", 2) == 0 {
+		sym.SetGOMAXPROCS(2 * sym.IntRange("shards", 2, 3))
+		other = verifExecInstant(e, &stub.Queryable{Ser: data}, qs, start)
+	} else {
+		order := [][]int{{2, 1, 0}, {1, 2, 0}, {0, 2, 1}}[sym.Choice("order", 3)]
+		perm := []*stub.Series{data[order[0]], data[order[1]], data[order[2]]}
+		other = verifExecInstant(e, &stub.Queryable{Ser: perm}, qs, start)
+	}
+	sym.Assert("C11/real/errors", base.Err == nil && other.Err == nil)
+	bv, _ := base.Value.(promql.Vector)
+	ov, _ := other.Value.(promql.Vector)
+	sym.Assert("C11/real/count", len(bv) == len(ov) && len(bv) == 1)
+	if len(bv) == 1 && len(ov) == 1 {
+		sym.Assert("C11/real/value-up-to-rounding", sym.EqR(bv[0].V, ov[0].V))
+	}
+	sym.Reached("C11/real/end")
+}
